@@ -196,7 +196,8 @@ def check(ctx):
                 if all_un:
                     idx = tr.events.index(all_un[0])
                     later = tr.events[idx + 1:]
-                    has = any(x.kind == "LOOP" and any(y.kind == "REG" and y.a["reg"] == W for bp in x.a["body"] for y in bp.events) for x in later)
+                    has = any(x.kind == "LOOP" and any(y.kind == "REG" and y.a["reg"] == W for bp in x.a["body"] for y in bp.events) for x in later) \
+                        or _queue_known_empty(tr.path.conds)      # a guard "anything waiting?" in front of the refill
                     ctx.ob("W-TRIGGER", "%s %s: refill after the entry is removed" % (cq, tr.name), has, where=where(all_un[0]),
                            function=all_un[0].func, construct="%s/%s/refill" % (all_un[0].func, tr.name),
                            msg="%s handler frees a slot without refilling the window from the queue" % tr.name)
